@@ -8,10 +8,15 @@ import vlib
 def violated_line(r):
     """trace line (1-based index into the validated file) at which TLC stopped"""
     if r.violated:
+        # a validated trace is one linear behaviour: the violating state is the last one generated
+        # (the printed error trace is NOT a reliable source: TLC cuts very long ones)
         m = re.findall(r"/\\ l = (\d+)", r.out)
-        line = int(m[-1]) - 1 if m else 1
+        line = max(int(m[-1]) - 1 if m else 1, r.generated - 1)
         return max(line, 1), f"invariant {', '.join(r.violated)} violated after trace line {max(line,1)}"
     if r.rejected:
+        if getattr(r, "invfail", None):
+            names = sorted({n for n, _ in r.invfail})
+            return int(r.rejected[0][0]), f"invariant {', '.join(names)} violated after trace line {r.rejected[0][0]}: {r.rejected[0][1][:600]}"
         return int(r.rejected[0][0]), f"first unexplained event: {r.rejected[0][1][:1200]}"
     return 1, "rejected"
 
